@@ -17,6 +17,7 @@ EXPLANATION = (
     "DOMAIN-FRESH, REPORTS — re-run here) transfer.  C15.TZ = C18.TZAPI over scale.py and d3_time.py.  The 1 ms "
     "round-trip bound is numeric and not decided."
     '  The default inner scale is built unclamped (C15.DELEGATE).'
+    '  C15.EPOCH: the constant the millisecond conversions are anchored at is datetime(1970, 1, 1); C12.COPY-FRESH / C12.SHARED-LIST are re-run because TimeScale.copy copies the inner linear scale.'
 )
 ASSUMPTIONS = ["naive datetime subtraction / timedelta arithmetic is exact to the microsecond"]
 
